@@ -147,8 +147,10 @@ def run_gas(src, tgt, out):
 
 def run_swath(src, tgt, chunks, out):
     lons, lats = src.get_lonlats()
-    swath = SwathDefinition(xr.DataArray(da.from_array(lons, chunks=tuple(chunks))),
-                            xr.DataArray(da.from_array(lats, chunks=tuple(chunks))))
+    # chunks: one size per dimension, or an explicit (ragged) list of sizes per dimension
+    chunks = tuple(tuple(c) if isinstance(c, list) else c for c in chunks)
+    swath = SwathDefinition(xr.DataArray(da.from_array(lons, chunks=chunks)),
+                            xr.DataArray(da.from_array(lats, chunks=chunks)))
     inst = {}
     out["inst"] = inst
     sl = slicer_mod.create_slicer(swath, tgt)
